@@ -141,10 +141,21 @@ fn main() {
             let seed: u64 = arg(&args, "--seed").map(|s| s.parse().unwrap()).unwrap_or(1);
             let runs: usize = arg(&args, "--runs").map(|s| s.parse().unwrap()).unwrap_or(4);
             let steps: usize = arg(&args, "--steps").map(|s| s.parse().unwrap()).unwrap_or(500);
-            let classes: u16 = arg(&args, "--classes").map(|s| s.parse().unwrap()).unwrap_or(12);
+            let classes: elem::Cls = arg(&args, "--classes").map(|s| s.parse().unwrap()).unwrap_or(12);
             let caps: Vec<usize> = arg(&args, "--caps").unwrap_or("8,6,4").split(',').map(|x| x.parse().unwrap()).collect();
             let inject: f64 = arg(&args, "--inject").map(|s| s.parse().unwrap()).unwrap_or(0.0);
-            let info = trace::record(arg(&args, "--trace").expect("--trace"), set_mode, seed, runs, steps, &caps, classes, inject);
+            let info = if arg(&args, "--window").is_some() {
+                // one history in a container of more than 65 536 entries, observed through a window of watched keys
+                let path = arg(&args, "--trace").expect("--trace").to_string();
+                std::thread::Builder::new()
+                    .stack_size(1 << 30)
+                    .spawn(move || trace::record_window(&path, set_mode, seed, steps))
+                    .expect("spawn")
+                    .join()
+                    .expect("window trace thread")
+            } else {
+                trace::record(arg(&args, "--trace").expect("--trace"), set_mode, seed, runs, steps, &caps, classes, inject)
+            };
             let out = arg(&args, "--out").expect("--out");
             std::fs::write(out, serde_json::to_string_pretty(&info).unwrap()).expect("write report");
         }
